@@ -52,8 +52,19 @@ type VFNDPConn struct {
 
 var _ Conn = &VFNDPConn{}
 
-func (c *VFNDPConn) LeaveGroup(_ netip.Addr) error { return c.OnLeave(c.ID) }
-func (c *VFNDPConn) Close() error                  { return c.OnClose(c.ID) }
+// (a nil receiver means the code under test is using a connection it never obtained: that is its crash, not the stub's)
+func (c *VFNDPConn) LeaveGroup(_ netip.Addr) error {
+	if c == nil {
+		panic("VF-PRODUCT: LeaveGroup on a connection that was never dialled")
+	}
+	return c.OnLeave(c.ID)
+}
+func (c *VFNDPConn) Close() error {
+	if c == nil {
+		panic("VF-PRODUCT: Close on a connection that was never dialled")
+	}
+	return c.OnClose(c.ID)
+}
 func (c *VFNDPConn) ReadFrom() (ndp.Message, *ipv6.ControlMessage, netip.Addr, error) {
 	return nil, nil, netip.Addr{}, errors.New("vf: not readable")
 }
